@@ -196,6 +196,22 @@ mod __verif_native_fs {
                     } else { check(false, "C12.write_succeeds", || show(&p)); }
                 }
                 for l in 0..nlayers - 1 { check(snapshot(roots[l]) == before[l], "C12.lower_layers_are_never_modified", || show(&format!("layer {}", l))); }
+                // a write whose bytes EQUAL what a lower layer already holds still lands in the top layer: "unchanged, skip" decided
+                // through the merged read would leave the top layer without the file (round-5 seed C12-5)
+                if nlayers >= 2 {
+                    let cf = if suffix == "lz" { crate::CompressionFormat::LZ13(crate::LZ13CompressionFormat {}) } else { crate::CompressionFormat::LZ10(crate::LZ10CompressionFormat {}) };
+                    let same: Vec<u8> = (0..200).map(|i| (i % 5) as u8).collect();
+                    let packed = format!("same/packed.bin.{}", suffix);
+                    put(roots[0], "same/plain.bin", &same); put(roots[0], &packed, &cf.compress(&same).unwrap());
+                    for p in ["same/plain.bin".to_string(), packed, "only0/deep/x.txt".to_string()] {
+                        let payload = if p.starts_with("only0") { b"x".to_vec() } else { same.clone() };
+                        if !check(fs.read(&p, false).ok().as_ref() == Some(&payload), "C12.read_returns_highest_priority_layer", || show(&format!("{} (lower layer only)", p))) { continue; }
+                        match no_panic(|| fs.write(&p, &payload, false)) { Ok(Ok(())) => {}, other => { check(false, "C12.write_succeeds", || show(&format!("{} -> {:?}", p, other.map(|r| r.map_err(|e| format!("{:?}", e)))))); continue; } }
+                        check(std::fs::read(roots[nlayers - 1].join(&p)).is_ok(), "C12.write_targets_the_highest_priority_layer", || show(&format!("{}: payload equal to the copy a lower layer holds", p)));
+                        check(fs.resolve(&p, false).map(|r| r.starts_with(roots[nlayers - 1].canonicalize().unwrap()) || r.starts_with(roots[nlayers - 1])).unwrap_or(false), "C12.resolve_finds_the_top_copy", || show(&format!("{} after a write equal to the lower copy", p)));
+                        check(fs.read(&p, false).ok().as_ref() == Some(&payload), "C12.read_after_write_returns_the_written_bytes", || show(&p));
+                    }
+                }
                 // a write the TOP layer cannot take (a regular file sits where a directory is needed) is an error; it must not
                 // land in a lower layer instead
                 if nlayers >= 2 {
